@@ -40,12 +40,13 @@ COMPONENTS = {
     'stub': ['HTTP transport', 'the node\'s big_map store (SimNode.big_maps) and its application of committed diffs', 'instruction-level fault point'],
 }
 ASSUMPTIONS = [
-    'big_maps passed in the parameter (the unfinished `copy` action) are outside the statement and not generated.',
+    'big_maps passed by id in the parameter are generated for their observations (GET/MEM/GET_AND_UPDATE results must follow the layered model); '
+    'the diff of the unfinished `copy` action is not judged.',
     'A read that exhausts the retry budget is outside the statement (pytezos maps any RpcError to "absent"); bursts stay below the cap.',
     'The node assigns real ids (>= 1000) on alloc, as a real node does; interpreter-local placeholder ids are mapped by position.',
     'Independent key hashing covers the key types generated here (int, string, bytes, pair int string, pair int int int string), using the legacy (nested-pair) packing for combs, as the protocol does for big_map keys.',
 ]
-EXPECTED_PROBES = ['empty_list_value_on_chain_read', 'sibling_key_types_same_text', 'read_chain_only_key', 'update_chain_only_key', 'remove_chain_only_key', 'reinsert_after_remove', 'read_after_local_remove_of_chain_key',
+EXPECTED_PROBES = ['parameter_big_map_session', 'empty_list_value_on_chain_read', 'sibling_key_types_same_text', 'read_chain_only_key', 'update_chain_only_key', 'remove_chain_only_key', 'reinsert_after_remove', 'read_after_local_remove_of_chain_key',
                    'commit_with_removals', 'abandoned_session', 'failed_cell_midway', 'transient_on_read', 'second_txn_reads_first_txn_writes', 'dup_divergent']
 
 URI = 'http://node0.sim:8732'
@@ -205,10 +206,10 @@ def gen(seed, tier):
     ntx = rng.choice([1, 1, 2, 3, 5]) if tier == 'thorough' else rng.choice([1, 1, 2, 3])
     p_fail = rng.choice([0.0, 0.0, 0.15, 0.3])
     p_fault = rng.choice([0.0, 0.0, 0.2, 0.5])
-    opmix = [o for o in ('get', 'mem', 'upd_some', 'upd_none', 'gau_some', 'gau_none', 'dup_drop', 'dup_keep') if rng.random() < 0.75] or ['get', 'upd_some']
+    opmix = [o for o in ('get', 'mem', 'upd_some', 'upd_none', 'gau_some', 'gau_none', 'dup_drop', 'dup_keep', 'dup_both') if rng.random() < 0.75] or ['get', 'upd_some']
     steps = []
     for t in range(ntx):
-        src = rng.choice(['chain', 'chain', 'chain', 'literal', 'empty', 'prev'])
+        src = rng.choice(['chain', 'chain', 'chain', 'literal', 'empty', 'prev', 'param'])
         st = {'op': 'begin', 'src': src, 'bm': rng.choice(['1000', '1000', '1001'])}
         if src == 'literal':
             lit = {}
@@ -221,6 +222,11 @@ def gen(seed, tier):
             s = {'op': op, 'k': rng.randrange(len(keys)), 'v': newval('v')}
             if op.startswith('dup_'):
                 s['inner'] = rng.choice(['upd_some', 'upd_none', 'gau_some'])
+            if op == 'dup_both':
+                # the copy and the original are updated differently; the copy is kept
+                s['inner2'] = rng.choice(['upd_some', 'upd_none'])
+                s['k2'] = rng.randrange(len(keys))
+                s['v2'] = newval('w')
             if rng.random() < p_fail:
                 s['fail'] = rng.choice([{'mode': 'tail'}, {'mode': 'inject', 'ordinal': rng.randint(1, 5), 'when': rng.choice(['entry', 'exit'])}])
             if rng.random() < p_fault:
@@ -263,6 +269,12 @@ def cell_for(step, ktype, keys, vtype='string'):
     if op == 'dup_keep':
         inner = upd(step['inner'])
         return ['DUP'] + inner + (['DROP'] if step['inner'].startswith('gau') else []) + ['SWAP', 'DROP'], None
+    if op == 'dup_both':
+        inner = upd(step['inner'])
+        k2 = key_michelson(ktype, tuple(keys[step['k2']]) if ktype in ('pair', 'comb4') else keys[step['k2']])
+        v2 = val_michelson(vtype, step['v2'])
+        other = [f'PUSH {V} {v2}', 'SOME', f'PUSH {K} {k2}', 'UPDATE'] if step['inner2'] == 'upd_some' else [f'NONE {V}', f'PUSH {K} {k2}', 'UPDATE']
+        return ['DUP'] + inner + (['DROP'] if step['inner'].startswith('gau') else []) + ['SWAP'] + other + ['DROP'], None
     raise core.HarnessError(op)
 
 
@@ -382,8 +394,8 @@ def execute(scn, want_log=False):
                 K = KTYPE_M[ktype]
                 H = HS[ktype]
                 sess['ktype'] = ktype
-                if src in ('chain', 'prev'):
-                    bm = int(st['bm']) if src == 'chain' else last_committed[0]
+                if src in ('chain', 'prev', 'param'):
+                    bm = int(st['bm']) if src != 'prev' else last_committed[0]
                     sess['base_id'] = bm
                     sess['base'] = dict(model.get(bm, {}))
                     lit = str(bm)
@@ -397,9 +409,16 @@ def execute(scn, want_log=False):
                     lit = '{ ' + ' ; '.join(f'Elt {key_michelson(ktype, k)} {val_michelson(vtype, v)}' for k, v, _ in pairs) + ' }'
                     for k, v, ki in pairs:
                         sess['overlay'][ki] = v
-                r0 = run(f'parameter unit ; storage (big_map {K} {V}) ; code {{ CDR ; NIL operation ; PAIR }}')
-                r1 = run(f'BEGIN Unit {lit}')
-                r2 = run('CDR')
+                if src == 'param':
+                    # the on-chain big_map is handed over by id in the *parameter* (registered as a copy under a temporary id):
+                    # observations are within the statement; its `copy` diff is unfinished in pytezos and is not judged
+                    r0 = run(f'parameter (big_map {K} {V}) ; storage (big_map {K} {V}) ; code {{ CDR ; NIL operation ; PAIR }}')
+                    r1 = run(f'BEGIN {lit} {{}}')
+                    r2 = run('CAR')
+                else:
+                    r0 = run(f'parameter unit ; storage (big_map {K} {V}) ; code {{ CDR ; NIL operation ; PAIR }}')
+                    r1 = run(f'BEGIN Unit {lit}')
+                    r2 = run('CDR')
                 if any(r.error is not None for r in (r0, r1, r2)):
                     raise core.HarnessError(f'session setup failed: {[r.stdout for r in (r0, r1, r2)]}')
                 continue
@@ -411,6 +430,10 @@ def execute(scn, want_log=False):
                 sess = None
                 if json.dumps(node.big_maps, sort_keys=True) != before:
                     violate('abort', 'abort-leak')
+                continue
+            if op == 'commit' and sess['src'] == 'param':
+                bump('parameter_big_map_session')
+                sess = None  # nothing durable is judged for a parameter big_map (see above)
                 continue
             if op == 'commit':
                 res = run('NIL operation ; PAIR ; COMMIT')
@@ -558,7 +581,7 @@ def execute(scn, want_log=False):
                 apply_update(ki, st['v'])
             elif op in ('upd_none', 'gau_none'):
                 apply_update(ki, None)
-            elif op == 'dup_keep':
+            elif op in ('dup_keep', 'dup_both'):
                 apply_update(ki, st['v'] if st['inner'] in ('upd_some', 'gau_some') else None)
         if sess is not None:
             bump('abandoned_session')
@@ -612,7 +635,8 @@ def simplify(scn):
         if st['op'].startswith('dup_'):
             c = cp()
             c['steps'][i]['op'] = st['inner']
-            del c['steps'][i]['inner']
+            for fld in ('inner', 'inner2', 'k2', 'v2'):
+                c['steps'][i].pop(fld, None)
             yield c
     for bm, content in scn['chain0'].items():
         for ki in list(content):
